@@ -27,6 +27,13 @@ def specDecode (r : Bytes) : Kevent :=
 
 namespace C01
 
+/-- The body of `from_kd_buf`, symbolically evaluated from the source on every run, is exactly the shape the
+    model `decodeWith` implements: tuple positions, the two masks, the second unpack of the argument bytes,
+    the constructor's argument order.  Any other statement in the function (a fast path, a conditional, a
+    different position) makes this fail and triggers the failing-input search. -/
+theorem source_shape_is_model_shape :
+    Gen.Consts.keventShape = expectedShape Gen.Consts.eventidMask Gen.Consts.funcMask := by decide
+
 theorem debugid_lt (r : Bytes) (hb : IsBytes r) : leNat ((r.drop 48).take 4) < 2 ^ 32 := by
   have := leNat_lt ((r.drop 48).take 4) ((hb.drop 48).take 4)
   have hl : ((r.drop 48).take 4).length ≤ 4 := by simp; omega
